@@ -32,7 +32,16 @@ LEVEL_TEXT = ("Lean theorems for all stored-record maps, outcome scripts, lifecy
               "sub-passes of its parents on one store (`cycle2`: cycle2_refines_cycle, cycle2_closed_purges_children, "
               "cycle2_child_no_rerun, cycle2_keeps_untouched); 'a sub-handler … is never invoked again across intervening events' "
               "WAS false of the code (finding C02-F1, repaired by /repo 88a8bee: the purge is selective) and is now the regression "
-              "theorem sub_not_rerun_after_supersede_regression. 'Last-handled state written exactly when closed': the "
+              "theorem sub_not_rerun_after_supersede_regression. None of the sub-handler theorems has a hypothesis on the cause: they "
+              "hold for the sub-handlers of deletion handlers verbatim (delete_parent_runs_its_children_regression, the model-side "
+              "regression of /repo 345a874→17e5c42). The SELECTION side of a sub-registry is an INPUT of the model: `subCfgOf` takes "
+              "the sub-handlers the parent registered as the selected ones (sub_selection_is_registration states it); under it, "
+              "cycle2_closed_children_finished ('not before' for children, every cause) and cycle2_due_child_invoked_all_at_once "
+              "(a due registered child IS invoked) are theorems; the input is compared with what `subhandling.execute` really "
+              "selects on every parent invocation (tie 'C02 sub-registry selection') and the oracle requires it of the real "
+              "operator (a registered, still due sub-handler is invoked; parent/cycle not finished before the children); the gate "
+              "that decides it in the code (`ChangingRegistry.iter_handlers`) is modelled in C15 (`Kopf.C15.gate`) and C05 "
+              "(`Kopf.C05.gate`). 'Last-handled state written exactly when closed': the "
               "model has the closing decision (`closed`), compared with the code on every pass; the write itself is an oracle "
               "clause. Ties: T (HandlerState booleans, outcome flags, lifecycles), S per pass (invocations, every top-level "
               "record, purged children both ways, closing decision, delays), S per sub-pass, S per whole pass with its sub-passes.")
@@ -42,12 +51,18 @@ THEOREMS = [("Kopf.Props.C02", "Kopf.C02." + n) for n in [
     "finished_never_invoked", "once_per_cycle", "finished_never_invoked_varying", "once_per_cycle_varying", "stale_view_reruns",
     "due_invoked_all_at_once", "sub_no_rerun", "sub_retry_kwarg", "parent_final_iff_subs_finished", "sub_records_covered", "sub_writes_only_known",
     "sub_records_purged_on_close", "superseding_cause_reruns_witness",
-    "cycle2_refines_cycle", "cycle2_closed_purges_children", "cycle2_child_no_rerun", "sub_not_rerun_after_supersede_regression", "cycle2_keeps_untouched"]]
+    "cycle2_refines_cycle", "cycle2_closed_purges_children", "cycle2_child_no_rerun", "sub_not_rerun_after_supersede_regression", "cycle2_keeps_untouched",
+    "sub_selection_is_registration", "cycle2_closed_children_finished", "cycle2_due_child_invoked_all_at_once",
+    "delete_parent_runs_its_children_regression"]]
 TIE_THEOREMS = [("Kopf.Tie.C02", "Kopf.C02.Tie." + n) for n in [
     "finished_eq", "sleeping_eq", "awakened_eq", "success_eq", "failure_eq", "one_by_one_eq", "all_at_once_eq"]]
 RULE = ("seeded scenarios: 1-4 change handlers (create/update/delete/resume, optional sub-handlers), outcome scripts over "
         "ok/temporary(delay)/permanent/arbitrary, retries/timeout/backoff/errors settings, three lifecycles, object edits, deletion, "
-        "graceful stops and kills with restarts at random dyadic times; one case = one handling pass; distinct & non-trivial = "
+        "graceful stops and kills with restarts at random dyadic times; a sub-handler family (gen_subs): parents of every kind "
+        "(create/update/delete/resume/field) with 1-3 children registered by @kopf.subhandler (implicit run or argument-less "
+        "kopf.execute()), kopf.register, or kopf.execute(fns=…), scripts for children and parents, objects existing before the "
+        "start or created later, deletion requested while the children of an update/field/resume parent are retrying, restarts "
+        "in between (histograms sub_parent_kind*, sub_registration, sub_pass_shape, sub_selection); one case = one handling pass; distinct & non-trivial = "
         "distinct abstracted (reason, stored-record shape, outcomes, closing) tuples with at least one handler selected")
 TRUSTED = ["harness/sim (virtual-time loop, fake API server, scripted handlers, attribute-level observation of kopf)",
            "abstraction of a pass: records decoded with kopf's own progress storage (C16's subject)",
@@ -58,7 +73,12 @@ ASSUMPTIONS = ["randomized/shuffled lifecycles are not modelled (they draw from 
                "responses, late echoes') and assume no pass of another reason (a superseding cause, incl. a no-op that purges) in between",
                "`cycle2` composes one level of sub-handlers on one clock; nested sub-handlers and passes in which time advances between "
                "the handlers (sleeping handlers) are compared per sub-pass only (histogram whole_pass_skipped)",
-               "sync handlers run inline (no real threads)"]
+               "sync handlers run inline (no real threads)",
+               "which sub-handlers a sub-registry yields for the cause is an input of the model (`subCfgOf`: the registered children are "
+               "the selected ones — sub-handlers without criteria of their own); the gate in the code (`ChangingRegistry.iter_handlers`: "
+               "reason/initial/deleted/field_needs_change) is modelled in C15 (`Kopf.C15.gate`) and C05 (`Kopf.C05.gate`); here the input is "
+               "compared with the code per parent invocation and required by the oracle, for every cause incl. deletion",
+               "sub-handlers with criteria of their own (labels/when/field on @kopf.subhandler) and nested sub-handlers are not generated"]
 
 OWN_PREFIX = "kopf.zalando.org/"
 KINDS = ["create", "update", "delete", "resume"]
@@ -294,6 +314,94 @@ def gen_foreign_burst(rng: Any, i: int) -> dict:
             "echo_delay": {"default": rng.choice([0.0, 0.0, 0.25, 0.5, 1.0])}, "end": t + 30.0}
 
 
+SUB_MODES = ["execute", "decorator", "register", "decorator_execute"]
+ESSENCE0 = {"spec": {"x": 0}, "metadata": {"labels": {"l": "1"}}}
+
+
+def gen_subs(rng: Any, i: int) -> dict:
+    """Sub-handlers under parents of EVERY kind — create, update, delete, resume and field handlers: 1-3 children per
+    parent, registered by `@kopf.subhandler` inside the parent (run implicitly, or by an argument-less `kopf.execute()`),
+    by `kopf.register`, or passed to `kopf.execute(fns=…)`; outcome scripts for the children and for the parent's own
+    function; the object exists before the operator starts (resume / creation with resuming handlers mixed in) or is
+    created later; spec edits (update + field causes), deletion requested shortly after (while the children of the
+    previous cause are still retrying: their parent falls out of the purpose, or is re-purposed — resume handlers with
+    deleted=True), graceful stops and kills with restarts in between."""
+    kinds = [rng.choice(["create", "update", "update", "delete", "delete", "resume", "field"]) for _ in range(rng.choice([1, 2, 2, 3]))]
+    if "delete" not in kinds and rng.random() < 0.5:
+        kinds.append("delete")
+    handlers = []
+    for k, kind in enumerate(kinds):
+        opts: dict[str, Any] = {}
+        if kind == "field":
+            opts["field"] = "spec.x"
+        if kind == "delete" and rng.random() < 0.2:
+            opts["optional"] = True
+        if kind == "resume" and rng.random() < 0.6:
+            opts["deleted"] = True
+        if rng.random() < 0.25:
+            opts["backoff"] = rng.choice([0.5, 1.0, 2.0])
+        if rng.random() < 0.15:
+            opts["retries"] = rng.choice([2, 3])      # children-retries use up the parent's attempts
+        if rng.random() < 0.1:
+            opts["timeout"] = rng.choice([2.0, 4.0])
+        if rng.random() < 0.15:
+            opts["errors"] = rng.choice(["ignored", "temporary", "permanent"])
+        subs = []
+        for j in range(rng.choice([1, 2, 2, 3])):
+            subs.append({"id": f"s{j}", "default": "ok",
+                         "script": [rng.choice(["ok", ["temp", 0.5], ["temp", 1.0], ["temp", 2.0], "perm", "arb"])
+                                    for _ in range(rng.choice([0, 1, 1, 2, 3]))]})
+        r = rng.random()
+        if r < 0.6:
+            script: list = []
+        elif r < 0.8:       # the parent's own function fails first: no children are registered in that pass
+            script = [rng.choice([["temp", 1.0], ["temp", 0.5], "arb"])]
+        else:               # … or fails later, between the passes of its children
+            script = ["ok"] * rng.choice([1, 2, 3]) + [rng.choice(["perm", "arb", ["temp", 1.0]])]
+        handlers.append({"kind": kind, "id": f"{kind[0]}{k}", "opts": opts, "script": script, "default": "ok",
+                         "sub": subs, "sub_mode": rng.choice(SUB_MODES)})
+    for k in range(rng.choice([0, 0, 1, 2])):       # siblings without children
+        kind = rng.choice(["create", "update", "delete", "resume"])
+        handlers.append({"kind": kind, "id": f"p{kind[0]}{k}", "default": "ok",
+                         "opts": {"deleted": True} if kind == "resume" and rng.random() < 0.5 else {},
+                         "script": [rng.choice(["ok", ["temp", 1.0], "perm"]) for _ in range(rng.choice([0, 1, 2]))]})
+    rng.shuffle(handlers)
+    timeline: list[list] = []
+    objects: list[dict] = []
+    if rng.random() < 0.4:
+        body: dict[str, Any] = {"spec": {"x": 0}, "metadata": {"labels": {"l": "1"}}}
+        if rng.random() < 0.7:
+            body["metadata"]["annotations"] = {OWN_PREFIX + "last-handled-configuration": json.dumps(ESSENCE0, separators=(",", ":")) + "\n"}
+        objects.append({"name": "a", "body": body})
+        t = 0.5
+    else:
+        t = 1.0
+        timeline.append([t, "create", "a", {"spec": {"x": 0}, "metadata": {"labels": {"l": "1"}}}])
+    for n in range(rng.choice([0, 1, 1, 2, 3])):
+        t += rng.choice([0.25, 0.5, 1.0, 1.5, 3.0, 6.0])
+        timeline.append([t, "edit", "a", {"spec": {"x": rng.choice([0, 1, 2, n + 1])}}])
+    if rng.random() < 0.75:
+        t += rng.choice([0.25, 0.5, 0.75, 1.0, 1.5, 2.5, 6.0])
+        timeline.append([t, "delete", "a"])
+    end = t + 30.0
+    for _ in range(rng.choice([0, 0, 1, 1, 2])):
+        ts = rng.randrange(32, int((t + 8.0) * 64)) / 64.0
+        timeline.append([ts, rng.choice(["stop", "kill"])])
+        timeline.append([ts + rng.choice([0.5, 2.0, 5.0]), "start"])
+    sc = {"seed": i, "lifecycle": rng.choice(["asap", "one_by_one", "all_at_once"]), "handlers": handlers,
+          "timeline": timeline, "settings": {"execution.default_backoff": rng.choice([1.0, 2.0])}, "end": end}
+    if objects:
+        sc["objects"] = objects
+    if rng.random() < 0.2:
+        sc["status_subresource"] = True
+    return sc
+
+
+def _hid(inv: dict) -> str:
+    """kopf's own id of an invoked handler (the scenario id of a field handler `f0` is `f0/spec.x` in kopf)."""
+    return inv.get("hid") or inv["id"]
+
+
 def _own_record(body: dict, hid: str) -> dict | None:
     """Independent decoding of a progress annotation of the default storage (short ids only)."""
     ann = (body.get("metadata") or {}).get("annotations") or {}
@@ -312,14 +420,14 @@ def oracle(ctx: Ctx, sc: dict, tr: dict) -> None:
     for cyc in tr["cycles"]:
         body = cyc["body"]
         for inv in cyc["invoked"]:
-            rec = _own_record(body, inv["id"])
+            rec = _own_record(body, _hid(inv))
             if rec is not None and (rec.get("success") or rec.get("failure")):
-                ctx.oracle_fail(f"handler {inv['id']} invoked although its success/failure is recorded on the object it was given",
+                ctx.oracle_fail(f"handler {_hid(inv)} invoked although its success/failure is recorded on the object it was given",
                                 {"scenario": sc, "cycle": cyc["i"], "record": rec},
                                 {"site": "process_changing_cause", "shape": "finished handler re-invoked"})
             want = int((rec or {}).get("retries") or 0)
             if inv["retry"] != want:
-                ctx.oracle_fail(f"handler {inv['id']} invoked with retry={inv['retry']} but {want} attempts are recorded",
+                ctx.oracle_fail(f"handler {_hid(inv)} invoked with retry={inv['retry']} but {want} attempts are recorded",
                                 {"scenario": sc, "cycle": cyc["i"], "record": rec},
                                 {"site": "execute_handler_once", "shape": "retry kwarg != recorded retries"})
         p = cyc.get("pcc")
@@ -365,7 +473,7 @@ def oracle(ctx: Ctx, sc: dict, tr: dict) -> None:
                         subrefs = (json.loads(prec) or {}).get("subrefs") or [] if prec else None
                     except ValueError:
                         subrefs = None
-                    if subrefs is not None and hid.replace(".", "/") not in subrefs:
+                    if subrefs is not None and hid not in [str(x).replace("/", ".") for x in subrefs]:
                         ctx.oracle_fail(f"sub-handler record {k} is not referenced by its parent's record (it would survive the closing purge)",
                                         {"scenario": sc, "cycle": cyc["i"], "parent_subrefs": subrefs},
                                         {"site": "execute_handler_once", "shape": "sub-handler record not covered by parent subrefs"})
@@ -389,13 +497,13 @@ def oracle(ctx: Ctx, sc: dict, tr: dict) -> None:
         if not p:
             continue
         for inv in cyc["invoked"]:
-            if "/" not in inv["id"]:
+            if "/" not in _hid(inv):
                 continue
-            parent = inv["id"].rsplit("/", 1)[0]
+            parent = _hid(inv).rsplit("/", 1)[0]
             prec = (p.get("P") or {}).get(parent)
-            key = (cyc["inc"], cyc["uid"], inv["id"])
+            key = (cyc["inc"], cyc["uid"], _hid(inv))
             if key in sub_ok and prec and prec.get("started") == sub_ok[key] and inv["retry"] == 0 and not dead_times and not sc.get("faults"):
-                ctx.oracle_fail(f"sub-handler {inv['id']} is invoked from scratch although it succeeded earlier in the same retry series of its parent {parent}",
+                ctx.oracle_fail(f"sub-handler {_hid(inv)} is invoked from scratch although it succeeded earlier in the same retry series of its parent {parent}",
                                 {"scenario": sc, "cycle": cyc["i"], "parent_record": prec},
                                 {"site": "process_changing_cause", "shape": "finished sub-handler re-run after the superseded progress (children's records) was purged while the parent was re-purposed"})
         for sp in p.get("subpasses") or []:
@@ -442,6 +550,104 @@ def oracle(ctx: Ctx, sc: dict, tr: dict) -> None:
                     succ.pop(key)
 
 
+def _iso_s(val: str) -> float:
+    import datetime
+    from ..sim import simloop
+    return (datetime.datetime.fromisoformat(val) - simloop.EPOCH).total_seconds()
+
+
+def _finished(rec: dict | None) -> bool:
+    return bool(rec and (rec.get("success") or rec.get("failure")))
+
+
+def oracle_subs(ctx: Ctx, sc: dict, tr: dict) -> dict:
+    """Sub-handlers, from the property statement ("a handler or sub-handler …", "the cycle is closed exactly when every
+    selected handler has finished, and not before"), over what the scripted handlers saw and the object carried:
+    for every invocation of a parent whose function registered the sub-handlers S (none of them declares criteria,
+    so all of S are selected for the cause at hand, whatever the cause is — deletion included):
+      (a) a sub-handler of S that is still due on the body given to the pass (no success/permanent failure recorded,
+          not sleeping) is invoked: all of them under all_at_once, at least one under one_by_one/asap;
+      (b) the parent is recorded as finished only if all of S are finished;
+      (c) the cycle is closed in that pass (records purged, last-handled state written, the finalizer released on a
+          deletion) only if all of S are finished;
+      (d) no finished sub-handler is invoked again, (e) `retry` = recorded attempts: `oracle()`, per invocation.
+    Returns the per-pass statistics for the histograms."""
+    lifecycle = sc.get("lifecycle") or "asap"
+    calls = tr["calls"]
+    kinds = {h["id"]: h["kind"] for h in sc.get("handlers", [])}
+    stats: dict[str, int] = {}
+    for cyc in tr["cycles"]:
+        regs = cyc.get("sub_registered") or []
+        body = cyc["body"]
+        p = cyc.get("pcc") or {}
+        # deletion (or another cause) arriving over an open series of sub-handlers: histogram only
+        if p.get("reason") in KINDS:
+            ann = (body.get("metadata") or {}).get("annotations") or {}
+            foreign = False
+            for k, raw in ann.items():
+                if k.startswith(OWN_PREFIX) and "." in k[len(OWN_PREFIX):] and k[len(OWN_PREFIX):] not in NON_PROGRESS_KEYS:
+                    try:
+                        foreign = foreign or (json.loads(raw) or {}).get("purpose") not in (None, p["reason"])
+                    except ValueError:
+                        pass
+            if foreign:
+                ctx.count("sub_superseded_series", f"{p['reason']} over the open series of another cause")
+        if not regs or cyc.get("error"):
+            continue
+        invoked = {_hid(i): i for i in cyc["invoked"]}
+        after_ann = _annotations_after(cyc)
+        marked = bool((body.get("metadata") or {}).get("deletionTimestamp"))
+        released = marked and "allow_deletion" in ((cyc.get("apply") or {}).get("fns") or [])
+        closing = bool(p.get("closed")) or bool(p.get("diffbase_in_patch")) or released
+        for reg in regs:
+            parent = reg["parent_hid"]
+            S = [f"{parent}/{sid}" for sid in reg["subs"]]
+            fin_before, due = {}, []
+            for sid in S:
+                rec = _own_record(body, sid)
+                fin_before[sid] = _finished(rec)
+                if not fin_before[sid]:
+                    d = (rec or {}).get("delayed")
+                    if d is None or _iso_s(d) <= reg["t"]:
+                        due.append(sid)
+            fin_after = {sid: fin_before[sid] or (sid in invoked and calls[invoked[sid]["call"]].get("outcome") in ("ok", "perm"))
+                         for sid in S}
+            kind = kinds.get(reg["parent"], "?")
+            key = f"{kind}:{p.get('reason')}"
+            stats[key] = stats.get(key, 0) + 1
+            ctx.count("sub_parent_kind", kind)
+            ctx.count("sub_parent_kind_by_cause", key)
+            ctx.count("sub_registration", reg["mode"])
+            ctx.count("sub_registered_n", str(len(S)))
+            ctx.count("sub_pass_shape", f"due={min(len(due), 3)} fin_before={sum(fin_before.values())} all_fin_after={all(fin_after.values())} closing={closing}")
+            rep = {"scenario": sc, "cycle": cyc["i"], "parent": parent, "registered": S, "due": due,
+                   "invoked": [[_hid(i), i["retry"]] for i in cyc["invoked"]]}
+            missing = [sid for sid in due if sid not in invoked]
+            if due and (missing if lifecycle == "all_at_once" else len(missing) == len(due)):
+                ctx.oracle_fail(f"the {p.get('reason')} handler {parent} ran and registered the sub-handlers {S}, but the due "
+                                f"sub-handler(s) {missing} were not invoked in this pass",
+                                rep, {"site": "subhandling.execute", "shape": "selected sub-handler not invoked although its parent ran"})
+            if not all(fin_after.values()):
+                unfinished = [sid for sid, f in fin_after.items() if not f]
+                prec = None
+                if after_ann is not None:
+                    raw = after_ann.get(OWN_PREFIX + parent.replace("/", "."))
+                    try:
+                        prec = json.loads(raw) if raw else None
+                    except ValueError:
+                        prec = None
+                po = (p.get("outcomes") or {}).get(parent)
+                if _finished(prec) or (po and po["final"]):
+                    ctx.oracle_fail(f"the parent handler {parent} is finished although its sub-handler(s) {unfinished} have not finished",
+                                    {**rep, "parent_record_after": prec},
+                                    {"site": "subhandling.execute", "shape": "parent final before its sub-handlers finished"})
+                if closing:
+                    ctx.oracle_fail(f"the handling cycle is closed ({'finalizer released' if released else 'last-handled state written / records purged'}) "
+                                    f"although the sub-handler(s) {unfinished} of the invoked handler {parent} have not finished",
+                                    {**rep, "released": released}, {"site": "process_changing_cause", "shape": "closed before the sub-handlers finished"})
+    return stats
+
+
 def abstract(cyc: dict, lifecycle: str) -> tuple[list, dict] | None:
     p = cyc.get("pcc")
     if not p or "P_after" not in p or isinstance(p["P_after"], dict) and "error" in p["P_after"]:
@@ -452,7 +658,7 @@ def abstract(cyc: dict, lifecycle: str) -> tuple[list, dict] | None:
                          "lifecycle": lifecycle, "P": p["P"], "outcomes": outcomes, "now": p["now"],
                          "now1": p["now1"] if p["now1"] is not None else p["now"], "universe": universe}]
     top = set(p["owned"])
-    impl = {"invoked": [[i["id"], i["retry"]] for i in cyc["invoked"] if i["id"] in top],
+    impl = {"invoked": [[_hid(i), i["retry"]] for i in cyc["invoked"] if _hid(i) in top],
             "P": {k: v for k, v in p["P_after"].items() if k in top},
             "purged_subs": sorted(k for k, v in p["P_after"].items() if k not in top and v is None),
             "closed": bool(p.get("closed")),
@@ -481,12 +687,34 @@ def abstract_subs(cyc: dict, lifecycle: str) -> list[tuple[list, dict]]:
         req = ["C02.subpass", {"owned": known, "selected": sp["selected"], "limits": sp["limits"], "reason": sp["reason"],
                                "lifecycle": lifecycle, "P": sp["P"], "outcomes": sp["outcomes"], "now": sp["now"],
                                "now1": sp["now1"] if sp["now1"] is not None else sp["now"], "universe": known}]
-        impl: dict[str, Any] = {"invoked": [[i["id"], i["retry"]] for i in cyc["invoked"] if i["id"] in known],
+        impl: dict[str, Any] = {"invoked": [[_hid(i), i["retry"]] for i in cyc["invoked"] if _hid(i) in known],
                                 "final": po["final"], "error": po["error"], "delay": po["delay"],
                                 "subrefs": sorted(po["subrefs"])}
         after = p.get("P_after")
         survives = isinstance(after, dict) and "error" not in after and after.get(parent) is not None
         impl["P"] = {k: after.get(k) for k in known} if survives else None
+        out.append((req, impl))
+    return out
+
+
+def abstract_subsel(cyc: dict, lifecycle: str) -> list[tuple[list, dict]]:
+    """The selection side of the sub-registries: the model (`subCfgOf`) takes the sub-handlers a parent registered as
+    the ones its sub-pass owns and selects; the implementation side is what `subhandling.execute` passed to
+    `execute_handlers_once` for that parent (nothing at all = no sub-pass observed)."""
+    p = cyc.get("pcc") or {}
+    out = []
+    if cyc.get("error") or p.get("reason") not in KINDS:
+        return out
+    sps = p.get("subpasses") or []
+    if any("error" in sp for sp in sps):
+        return out
+    for reg in cyc.get("sub_registered") or []:
+        parent = reg["parent_hid"]
+        children = [f"{parent}/{sid}" for sid in reg["subs"]]
+        mine = [sp for sp in sps if sp["parent"] == parent]
+        req = ["C02.subcfg", {"parent": parent, "children": {parent: children}, "reason": p["reason"], "lifecycle": lifecycle}]
+        impl = {"selected": [k for sp in mine for k in sp["selected"]], "reason": mine[0]["reason"] if mine else p["reason"],
+                "subpasses": len(mine)}
         out.append((req, impl))
     return out
 
@@ -506,7 +734,7 @@ def abstract_whole(cyc: dict, lifecycle: str) -> tuple[list, dict] | str | None:
         return "several clocks in one pass"
     if any(set(sp["known"]) != set(sp["selected"]) for sp in sps) or len({sp["parent"] for sp in sps}) != len(sps):
         return "children outside the registered ones"
-    if any("/" in k.split("/", 1)[1] for sp in sps for k in sp["known"] if "/" in k):
+    if any(not k.startswith(sp["parent"] + "/") or "/" in k[len(sp["parent"]) + 1:] for sp in sps for k in sp["known"]):
         return "nested sub-handlers"
     if any(sp["limits"].get(k) not in (None, [None, None]) for sp in sps for k in sp["selected"]):
         return "sub-handler limits"
@@ -523,8 +751,8 @@ def abstract_whole(cyc: dict, lifecycle: str) -> tuple[list, dict] | str | None:
                           "lifecycle": lifecycle, "children": children, "P": Pall, "outcomes": outcomes, "now": p["now"],
                           "universe": universe}]
     top = set(p["owned"])
-    impl = {"invoked": [[i["id"], i["retry"]] for i in cyc["invoked"] if i["id"] in top],
-            "subInvoked": [[i["id"], i["retry"]] for i in cyc["invoked"] if i["id"] in kids],
+    impl = {"invoked": [[_hid(i), i["retry"]] for i in cyc["invoked"] if _hid(i) in top],
+            "subInvoked": [[_hid(i), i["retry"]] for i in cyc["invoked"] if _hid(i) in kids],
             "P": {k: p["P_after"].get(k) for k in universe}, "closed": bool(p.get("closed"))}
     return req, impl
 
@@ -535,6 +763,7 @@ def run(ctx: Ctx) -> None:
     scenarios += [gen_supersede(ctx.rng, 50_000_000 + ctx.seed * 100000 + i) for i in range(max(10, n // 4))]
     scenarios += [gen_foreign_burst(ctx.rng, 60_000_000 + ctx.seed * 100000 + i) for i in range(max(10, n // 4))]
     scenarios += [gen_restart_supersede(ctx.rng, 65_000_000 + ctx.seed * 100000 + i) for i in range(max(10, n // 6))]
+    scenarios += [gen_subs(ctx.rng, 70_000_000 + ctx.seed * 100000 + i) for i in range(max(60, n // 2))]
     for name, sc in _corpus():
         scenarios.insert(0, sc)
     results = pool.run_many(scenarios, wall=40.0)
@@ -547,8 +776,16 @@ def run(ctx: Ctx) -> None:
             raise RuntimeError(f"simulation error: {tr['sim_error']}")
         ctx.traces += 1
         oracle(ctx, sc, tr)
+        sub_stats = oracle_subs(ctx, sc, tr)
+        if sub_stats:
+            ctx.count("scenarios_with_sub_passes", "+".join(sorted({k.split(":")[0] for k in sub_stats})))
         lifecycle = sc.get("lifecycle") or "asap"
         for cyc in tr["cycles"]:
+            for qreq, qimpl in abstract_subsel(cyc, lifecycle):
+                reqs.append(qreq)
+                impls.append(qimpl)
+                where.append({"scenario": sc, "cycle": cyc["i"], "sub_registry_of": qreq[1]["parent"]})
+                ctx.count("sub_selection", f"{qreq[1]['reason']}:{len(qimpl['selected'])}/{len(qreq[1]['children'][qreq[1]['parent']])}")
             ab = abstract(cyc, lifecycle)
             if ab is None:
                 continue
@@ -578,7 +815,7 @@ def run(ctx: Ctx) -> None:
             for sreq, simpl in abstract_subs(cyc, lifecycle):
                 reqs.append(sreq)
                 impls.append(simpl)
-                where.append({"scenario": sc, "cycle": cyc["i"], "subpass_of": sreq[1]["selected"][0].rsplit("/", 1)[0]})
+                where.append({"scenario": sc, "cycle": cyc["i"], "subpass_of": (sreq[1]["selected"] or sreq[1]["owned"] or ["?"])[0].rsplit("/", 1)[0]})
                 ctx.count("subpass", "final" if simpl["final"] else "children-retry")
                 ctx.case(key={"sub": True, "sel": len(sreq[1]["selected"]), "lc": lifecycle,
                               "P": sorted((bool(v and (v["success"] or v["failure"])), bool(v and v["delayed"] is not None))
@@ -596,6 +833,10 @@ def run(ctx: Ctx) -> None:
             ctx.tie_fail("driver rejected a pass", {"request": req, "answer": out, **wh})
             continue
         m = out[1]
+        if req[0] == "C02.subcfg":
+            ctx.compare("C02 sub-registry selection (registered sub-handlers = selected sub-handlers)", impl,
+                        {"selected": m["selected"], "reason": m["reason"], "subpasses": 1}, wh)
+            continue
         if req[0] == "C02.cycle2":
             model = {"invoked": m["invoked"], "subInvoked": m["subInvoked"], "P": m["P"], "closed": m["closed"]}
             ctx.compare("C02 whole pass with its sub-passes", impl, model, wh)
@@ -635,6 +876,7 @@ def search(ctx: Ctx, broken: list) -> None:
     for sc, res in zip(scenarios, pool.run_many(scenarios, wall=40.0)):
         if "trace" in res:
             oracle(ctx, sc, res["trace"])
+            oracle_subs(ctx, sc, res["trace"])
             if any(f.kind == "oracle" for f in ctx.failures):
                 return
 
@@ -645,3 +887,4 @@ def replay(ctx: Ctx, data: dict) -> None:
     res = pool.run_many([sc], wall=40.0)[0]
     if "trace" in res:
         oracle(ctx, sc, res["trace"])
+        oracle_subs(ctx, sc, res["trace"])
